@@ -387,6 +387,22 @@ pub fn c08(ctx: &Ctx) -> PropResult {
             }
         }
     }
+    // lists at their limits: IMPORT lists of 60 .. 66 names, parameter and argument lists of 253 .. 258, with and without
+    // a trailing comma, closed and unclosed
+    for n in [1usize, 60, 61, 62, 63, 64, 65, 66, 128] {
+        let names: Vec<String> = (0..n).map(|i| format!("\"F{i}\"")).collect();
+        for (sep, close) in [("", "]"), (",", "]"), (", \"X\"", "]"), (",", ""), ("", "")] {
+            cases.push(Case::new(Kind::Parse, format!("IMPORT [{}{sep}{close} FROM MOD \"M\"\n", names.join(", "))).tag("list-limits"));
+        }
+    }
+    for n in [253usize, 254, 255, 256, 257, 258] {
+        let ps: Vec<String> = (0..n).map(|i| format!("p{i}")).collect();
+        for (sep, close) in [("", ")"), (",", ")"), (", q", ")"), (",", ""), ("", "")] {
+            cases.push(Case::new(Kind::Parse, format!("PROCEDURE f({}{sep}{close} {{ }}\n", ps.join(", "))).tag("list-limits"));
+            cases.push(Case::new(Kind::Parse, format!("x <- f({}{sep}{close}\n", ps.join(", "))).tag("list-limits"));
+            cases.push(Case::new(Kind::Parse, format!("x <- [{}{sep}{}\n", ps.join(", "), if close.is_empty() { "" } else { "]" })).tag("list-limits"));
+        }
+    }
     // integer and decimal literals of every length around the machine word sizes
     for digits in [1usize, 9, 10, 15, 16, 17, 18, 19, 20, 21, 39, 40, 100, 308, 309, 310, 400] {
         for d in ["1", "9"] {
